@@ -261,7 +261,9 @@ TRUSTED_BASE = [
     "Coq 8.16.1 kernel and its vm_compute machine (no native_compute)",
     "harness/regen.py (constant regeneration from /repo by introspection and ast)",
     "harness correspondence drivers: model evaluated by vm_compute vs /repo implementation on the same cases",
-    "control flow of the Python code is modelled by hand, tied by correspondence only",
+    "control flow of the Python code outside the translated set is modelled by hand, tied by correspondence only",
+    "harness/regen.py gen_structure + pinned table Proofs/StructureP.v (structure premise Cxx_structure)",
+    "for C05/C10/C11/C19: harness/pytrans.py (Python source -> MiniPy terms) and Py/Interp.v as a description of CPython on the fragment, validated by the PySem stream on sampled arguments",
     "external primitives (hashlib, hmac, unicodedata, python-ecdsa, json, os.urandom) are parameters of the model",
 ]
 
